@@ -405,6 +405,9 @@ def gen_op(rng: random.Random, world_spec, kinds=None):
             op["upsample"] = rng.choice([1, 1, 2, 3])
             if p["model"] == "FSC":
                 p["max_shifts_px"] = rng.choice([0.0, 1.0])
+            elif rng.random() < 0.3:
+                # search ranges of half the box and more are legal (the landscape is padded)
+                p["max_shifts_px"] = rng.choice([3.0, [4.0, 1.0, 2.0], 4.6])
         if kind == "align" and rng.random() < 0.15:
             op["stack"] = 2
         if kind in ("align_multi_templates", "score"):
